@@ -163,4 +163,609 @@ theorem memberCheck_fdep_cls (W : DWorld) (fn : Nat) (ps : List (Option Nat)) (c
       rw [beq_eq_false_iff_ne]; intro e; injection e with e; exact h0 e
     simp [this, h0]
 
+
+/-! ## the conjunction of a handler is `accepts` -/
+
+theorem conjGo_eq (W : DWorld) (k : List Slot) (hs : List DHandler) (args : List (Slot × DVal))
+    (ok : RankOK W k hs args) (h : DHandler) (hh : h ∈ hs) :
+    ∀ ss : List Slot, (∀ s ∈ ss, s ∈ k) →
+      conjGo W args h (ss.filter (fun s => (dTyAt h s).isDep)) = Tri.ofBool (accepts W ss args h) := by
+  intro ss
+  induction ss with
+  | nil => intro _; rfl
+  | cons s r ih =>
+    intro hsub
+    have hsk : s ∈ k := hsub s (List.mem_cons_self)
+    have ih' := ih (fun s' hs' => hsub s' (List.mem_cons_of_mem _ hs'))
+    obtain ⟨v, hv⟩ := ok.present s hsk
+    have hacc : accepts W (s :: r) args h = ((isinstanceOf W (dTyAt h s) v == .yes) && accepts W r args h) := by
+      simp only [accepts, List.all_cons, hv]
+    rw [hacc]
+    cases hd : (dTyAt h s).isDep
+    · rw [List.filter_cons_of_neg (by simp [hd])]
+      rw [ih', ok.static h hh s hsk hd v hv]
+      simp
+    · rw [List.filter_cons_of_pos (by simp [hd])]
+      obtain ⟨h1, h2⟩ := ok.check h hh s hsk hd v hv
+      simp only [conjGo, hv]
+      rw [← h1]
+      cases hg : genCheck W (dTyAt h s) v
+      · simp only [ih']; simp
+      · simp [Tri.ofBool]
+      · exact absurd hg h2
+
+theorem conj_eq (W : DWorld) (k : List Slot) (hs : List DHandler) (args : List (Slot × DVal))
+    (ok : RankOK W k hs args) (h : DHandler) (hh : h ∈ hs) :
+    conj W args k h = Tri.ofBool (accepts W k args h) := by
+  unfold conj relevantSlots
+  exact conjGo_eq W k hs args ok h hh k (fun _ h => h)
+
+/-! ## generic list facts -/
+
+theorem mem_dedupFold {α : Type} [BEq α] [LawfulBEq α] (x : α) : ∀ (l acc : List α),
+    x ∈ l.foldl (fun acc t => if acc.contains t then acc else acc ++ [t]) acc ↔ x ∈ acc ∨ x ∈ l := by
+  intro l
+  induction l with
+  | nil => intro acc; simp
+  | cons a l ih =>
+    intro acc
+    rw [List.foldl_cons, ih]
+    by_cases hc : acc.contains a = true
+    · rw [if_pos hc]
+      have : a ∈ acc := List.contains_iff_mem.mp hc
+      constructor
+      · rintro (h | h)
+        · exact Or.inl h
+        · exact Or.inr (List.mem_cons_of_mem _ h)
+      · rintro (h | h)
+        · exact Or.inl h
+        · rcases List.mem_cons.mp h with e | e
+          · subst e; exact Or.inl this
+          · exact Or.inr e
+    · rw [if_neg hc]
+      simp only [List.mem_append, List.mem_cons, List.not_mem_nil, or_false, or_assoc]
+
+theorem mem_dedupNats (x : Nat) (l : List Nat) : x ∈ dedupNats l ↔ x ∈ l := by
+  unfold dedupNats
+  rw [mem_dedupFold]; simp
+
+theorem mem_dedupTys (x : Ty) (l : List Ty) : x ∈ dedupTys l ↔ x ∈ l := by
+  unfold dedupTys
+  rw [mem_dedupFold]; simp
+
+/-- with unique first components, an element is determined by its first component -/
+theorem eq_of_nodup_map_fst {α β : Type} : ∀ (l : List (α × β)), (l.map (·.1)).Nodup →
+    ∀ a ∈ l, ∀ b ∈ l, a.1 = b.1 → a = b := by
+  intro l
+  induction l with
+  | nil => intro _ a ha; cases ha
+  | cons x l ih =>
+    intro hnd a ha b hb hab
+    rw [List.map_cons, List.nodup_cons] at hnd
+    rcases List.mem_cons.mp ha with ea | ea <;> rcases List.mem_cons.mp hb with eb | eb
+    · rw [ea, eb]
+    · exfalso; apply hnd.1; rw [← ea, hab]; exact List.mem_map_of_mem eb
+    · exfalso; apply hnd.1; rw [← eb, ← hab]; exact List.mem_map_of_mem ea
+    · exact ih hnd.2 a ea b eb hab
+
+theorem eq_of_nodup_map {α β : Type} (f : α → β) : ∀ (l : List α), (l.map f).Nodup →
+    ∀ a ∈ l, ∀ b ∈ l, f a = f b → a = b := by
+  intro l
+  induction l with
+  | nil => intro _ a ha; cases ha
+  | cons x l ih =>
+    intro hnd a ha b hb hab
+    rw [List.map_cons, List.nodup_cons] at hnd
+    rcases List.mem_cons.mp ha with ea | ea <;> rcases List.mem_cons.mp hb with eb | eb
+    · rw [ea, eb]
+    · exfalso; apply hnd.1; rw [← ea, hab]; exact List.mem_map_of_mem eb
+    · exfalso; apply hnd.1; rw [← eb, ← hab]; exact List.mem_map_of_mem ea
+    · exact ih hnd.2 a ea b eb hab
+
+theorem nodup_of_nodup_map {α β : Type} (f : α → β) : ∀ (l : List α), (l.map f).Nodup → l.Nodup := by
+  intro l
+  induction l with
+  | nil => intro _; exact List.nodup_nil
+  | cons x l ih =>
+    intro h
+    rw [List.map_cons, List.nodup_cons] at h
+    rw [List.nodup_cons]
+    exact ⟨fun hx => h.1 (List.mem_map_of_mem hx), ih h.2⟩
+
+/-- a duplicate-free list all of whose elements are equal has at most one element -/
+theorem nodup_all_eq {α : Type} : ∀ (l : List α), l.Nodup → (∀ a ∈ l, ∀ b ∈ l, a = b) →
+    l = [] ∨ ∃ a, l = [a] := by
+  intro l hnd hall
+  match l, hnd, hall with
+  | [], _, _ => exact Or.inl rfl
+  | [a], _, _ => exact Or.inr ⟨a, rfl⟩
+  | a :: b :: r, hnd, hall =>
+    exfalso
+    rw [List.nodup_cons] at hnd
+    apply hnd.1
+    have : a = b := hall a List.mem_cons_self b (List.mem_cons_of_mem _ List.mem_cons_self)
+    rw [this]; exact List.mem_cons_self
+
+/-- if at most one element of a list satisfies `p`, two elements satisfying it are equal -/
+theorem eq_of_filter_length_le_one {α : Type} (p : α → Bool) : ∀ (l : List α), (l.filter p).length ≤ 1 →
+    ∀ a ∈ l, ∀ b ∈ l, p a = true → p b = true → a = b := by
+  intro l hlen a ha b hb pa pb
+  have ha' : a ∈ l.filter p := List.mem_filter.mpr ⟨ha, pa⟩
+  have hb' : b ∈ l.filter p := List.mem_filter.mpr ⟨hb, pb⟩
+  match hl : l.filter p, hlen with
+  | [], _ => rw [hl] at ha'; cases ha'
+  | [x], _ =>
+    rw [hl] at ha' hb'
+    rw [List.mem_singleton.mp ha', List.mem_singleton.mp hb']
+  | _ :: _ :: _, h => simp at h
+
+/-! ## the table built with `dictSet` -/
+
+def dictIns (d : List (Nat × Nat)) (pairs : List (Nat × Nat)) : List (Nat × Nat) :=
+  pairs.foldl (fun d p => dictSet d p.1 p.2) d
+
+theorem dictSet_length_le (d : List (Nat × Nat)) (k v : Nat) : (dictSet d k v).length ≤ d.length + 1 := by
+  unfold dictSet
+  split
+  · simp
+  · simp
+
+theorem dictSet_length_eq (d : List (Nat × Nat)) (k v : Nat) (h : (dictSet d k v).length = d.length + 1) :
+    dictSet d k v = d ++ [(k, v)] ∧ k ∉ d.map (·.1) := by
+  unfold dictSet at h ⊢
+  by_cases hc : d.any (fun e => e.1 == k) = true
+  · rw [if_pos hc] at h; simp at h
+  · rw [if_neg hc]
+    refine ⟨rfl, ?_⟩
+    intro hm
+    apply hc
+    obtain ⟨e, he, hek⟩ := List.mem_map.mp hm
+    exact List.any_eq_true.mpr ⟨e, he, by simp [hek]⟩
+
+theorem dictIns_length_le : ∀ (pairs d : List (Nat × Nat)), (dictIns d pairs).length ≤ d.length + pairs.length := by
+  intro pairs
+  induction pairs with
+  | nil => intro d; simp [dictIns]
+  | cons p ps ih =>
+    intro d
+    have h1 := ih (dictSet d p.1 p.2)
+    have h2 := dictSet_length_le d p.1 p.2
+    simp only [dictIns, List.foldl_cons, List.length_cons] at h1 ⊢
+    omega
+
+/-- **(a)** the dictionary has as many entries as pairs inserted only if no key is shared: then it is the
+    list of the pairs, and the keys are pairwise distinct -/
+theorem dictIns_length_eq : ∀ (pairs d : List (Nat × Nat)), (d.map (·.1)).Nodup →
+    (dictIns d pairs).length = d.length + pairs.length →
+    dictIns d pairs = d ++ pairs ∧ ((d ++ pairs).map (·.1)).Nodup := by
+  intro pairs
+  induction pairs with
+  | nil => intro d hd _; simp [dictIns, hd]
+  | cons p ps ih =>
+    obtain ⟨pk, pv⟩ := p
+    intro d hd hlen
+    have h1 := dictIns_length_le ps (dictSet d pk pv)
+    have h2 := dictSet_length_le d pk pv
+    have hstep : dictIns d ((pk, pv) :: ps) = dictIns (dictSet d pk pv) ps := by
+      simp only [dictIns, List.foldl_cons]
+    rw [hstep] at hlen ⊢
+    simp only [List.length_cons] at hlen
+    obtain ⟨e1, e2⟩ := dictSet_length_eq d pk pv (by omega)
+    have hd' : ((dictSet d pk pv).map (·.1)).Nodup := by
+      rw [e1, List.map_append, List.map_cons, List.map_nil]
+      rw [List.nodup_append]
+      refine ⟨hd, by simp, ?_⟩
+      intro a ha b hb hab
+      rw [List.mem_singleton] at hb
+      have hb' : b = pk := hb
+      apply e2; rw [← hb', ← hab]; exact ha
+    have := ih (dictSet d pk pv) hd' (by rw [e1] at hlen ⊢; simp at hlen ⊢; omega)
+    rw [e1] at this ⊢
+    simpa using this
+
+
+/-! ## the loop over the slots -/
+
+/-- `get_keys()` of a handler's Literal at slot `s` -/
+def keysOf (s : Slot) (h : DHandler) : List Nat :=
+  match dTyAt h s with
+  | .lit ks _ => dedupNats ks
+  | _ => []
+
+/-- the (key, handler) pairs of slot `s`, in insertion order -/
+def pairsAt (hs : List DHandler) (s : Slot) : List (Nat × Nat) :=
+  hs.flatMap (fun h => (keysOf s h).map (fun k => (k, h.1)))
+
+def tableAt (hs : List DHandler) (s : Slot) : List (Nat × Nat) :=
+  hs.foldl (fun d h => (keysOf s h).foldl (fun d k => dictSet d k h.1) d) []
+
+def totalAt (hs : List DHandler) (s : Slot) : Nat :=
+  (hs.map (fun h => (keysOf s h).length)).foldl (· + ·) 0
+
+/-- one iteration of the loop of `stratSlots` -/
+def stratStep (W : DWorld) (hs : List DHandler) (s : Slot) (st : StratState) : StratState :=
+  if (dedupTys (hs.map (fun h => dTyAt h s))).length == hs.length then
+    match dedupNats ((dedupTys (hs.map (fun h => dTyAt h s))).map (pyKind W)) with
+    | [kind] =>
+      if kind == 3 then
+        if (tableAt hs s).length != totalAt hs s then
+          { st with exclusive := false, keySlot := none, keyed := [] }
+        else if (dedupTys (hs.map (fun h => dTyAt h s))).length < 4 then
+          { st with exclusive := true, keySlot := none, keyed := tableAt hs s }
+        else { st with keySlot := some s, keyed := tableAt hs s }
+      else { st with exclusive := false }
+    | _ => st
+  else st
+
+theorem stratSlots_cons (W : DWorld) (hs : List DHandler) (s : Slot) (rest : List Slot) (st : StratState) :
+    stratSlots W hs (s :: rest) st = stratSlots W hs rest (stratStep W hs s st) := rfl
+
+theorem tableAt_eq (hs : List DHandler) (s : Slot) : tableAt hs s = dictIns [] (pairsAt hs s) := by
+  unfold tableAt dictIns pairsAt
+  rw [List.foldl_flatMap]
+  congr 1
+  funext d h
+  rw [List.foldl_map]
+
+theorem totalAt_eq (hs : List DHandler) (s : Slot) : totalAt hs s = (pairsAt hs s).length := by
+  unfold totalAt pairsAt
+  rw [List.length_flatMap, List.sum_eq_foldl]
+  simp only [List.length_map]
+
+/-- all handlers declare a Literal at `s`, and no key is shared -/
+def Disj (hs : List DHandler) (s : Slot) : Prop :=
+  (∀ h ∈ hs, ∃ ks b, dTyAt h s = .lit ks b) ∧ ((pairsAt hs s).map (·.1)).Nodup
+
+theorem pyKind_eq_three (W : DWorld) (t : Ty) (h : pyKind W t = 3) : ∃ ks b, t = .lit ks b := by
+  cases t <;> simp only [pyKind] at h <;> try omega
+  exact ⟨_, _, rfl⟩
+
+theorem stratStep_cases (W : DWorld) (hs : List DHandler) (s : Slot) (st : StratState) :
+    stratStep W hs s st = st ∨
+    stratStep W hs s st = { st with exclusive := false } ∨
+    stratStep W hs s st = { st with exclusive := false, keySlot := none, keyed := [] } ∨
+    (Disj hs s ∧ stratStep W hs s st = { st with exclusive := true, keySlot := none, keyed := pairsAt hs s }) ∨
+    (Disj hs s ∧ stratStep W hs s st = { st with keySlot := some s, keyed := pairsAt hs s }) := by
+  unfold stratStep
+  split
+  · split
+    · rename_i kind hk
+      split
+      · rename_i h3
+        have h3' : kind = 3 := by simpa using h3
+        subst h3'
+        by_cases hlen : (tableAt hs s).length = totalAt hs s
+        · have hall : ∀ h ∈ hs, ∃ ks b, dTyAt h s = .lit ks b := by
+            intro h hh
+            apply pyKind_eq_three W
+            have h1 : dTyAt h s ∈ dedupTys (hs.map (fun h => dTyAt h s)) :=
+              (mem_dedupTys _ _).mpr (List.mem_map_of_mem hh)
+            have h2 : pyKind W (dTyAt h s) ∈
+                dedupNats ((dedupTys (hs.map (fun h => dTyAt h s))).map (pyKind W)) :=
+              (mem_dedupNats _ _).mpr (List.mem_map_of_mem h1)
+            rw [hk] at h2
+            exact List.mem_singleton.mp h2
+          have hlen' := hlen
+          rw [tableAt_eq, totalAt_eq] at hlen'
+          obtain ⟨e1, e2⟩ := dictIns_length_eq (pairsAt hs s) [] (by simp) (by simpa using hlen')
+          have etab : tableAt hs s = pairsAt hs s := by rw [tableAt_eq, e1]; simp
+          have hd : Disj hs s := ⟨hall, by simpa using e2⟩
+          rw [if_neg (by simp [hlen])]
+          split
+          · right; right; right; left; exact ⟨hd, by rw [etab]⟩
+          · right; right; right; right; exact ⟨hd, by rw [etab]⟩
+        · rw [if_pos (by simp [hlen])]
+          right; right; left; rfl
+      · right; left; rfl
+    · left; rfl
+  · left; rfl
+
+/-- meaning of the state of the loop -/
+structure StratInv (hs : List DHandler) (k : List Slot) (st : StratState) : Prop where
+  excl : st.exclusive = true → ∃ s ∈ k, Disj hs s
+  key : ∀ s, st.keySlot = some s → s ∈ k ∧ Disj hs s ∧ st.keyed = pairsAt hs s
+
+theorem stratStep_inv (W : DWorld) (hs : List DHandler) (k : List Slot) (s : Slot) (hs_k : s ∈ k)
+    (st : StratState) (inv : StratInv hs k st) : StratInv hs k (stratStep W hs s st) := by
+  rcases stratStep_cases W hs s st with e | e | e | ⟨hd, e⟩ | ⟨hd, e⟩ <;> rw [e]
+  · exact inv
+  · exact ⟨fun h => (by cases h), inv.key⟩
+  · exact ⟨fun h => (by cases h), fun s' h => by cases h⟩
+  · exact ⟨fun _ => ⟨s, hs_k, hd⟩, fun s' h => by cases h⟩
+  · refine ⟨inv.excl, fun s' h => ?_⟩
+    have : s = s' := by simpa using h
+    subst this
+    exact ⟨hs_k, hd, rfl⟩
+
+theorem stratSlots_inv (W : DWorld) (hs : List DHandler) (k : List Slot) :
+    ∀ (ss : List Slot) (st : StratState), (∀ s ∈ ss, s ∈ k) → StratInv hs k st →
+      StratInv hs k (stratSlots W hs ss st) := by
+  intro ss
+  induction ss with
+  | nil => intro st _ inv; exact inv
+  | cons s rest ih =>
+    intro st hsub inv
+    rw [stratSlots_cons]
+    exact ih _ (fun s' h' => hsub s' (List.mem_cons_of_mem _ h'))
+      (stratStep_inv W hs k s (hsub s List.mem_cons_self) st inv)
+
+theorem stratSlots_final (W : DWorld) (hs : List DHandler) (k : List Slot) :
+    StratInv hs k (stratSlots W hs k {}) :=
+  stratSlots_inv W hs k k {} (fun _ h => h) ⟨fun h => (by cases h), fun s h => by cases h⟩
+
+theorem strategy_keyed (W : DWorld) (k : List Slot) (hs : List DHandler) (s : Slot) (table : List (Nat × Nat))
+    (h : strategy W k hs = .keyed s table) :
+    (∀ h ∈ hs, (relevantSlots k h).length ≤ 1) ∧ (stratSlots W hs k {}).keySlot = some s ∧
+      table = (stratSlots W hs k {}).keyed := by
+  unfold strategy at h
+  simp only at h
+  split at h
+  · rename_i s' hk
+    injection h with h1 h2
+    subst h1 h2
+    by_cases hm : hs.any (fun h => decide ((relevantSlots k h).length > 1)) = true
+    · rw [if_pos hm] at hk; cases hk
+    · rw [if_neg hm] at hk
+      refine ⟨?_, hk, rfl⟩
+      intro h hh
+      apply Nat.le_of_not_lt
+      intro hgt
+      apply hm
+      exact List.any_eq_true.mpr ⟨h, hh, by simpa using hgt⟩
+  · revert h
+    generalize (if (hs.length == 1) = true then true else (stratSlots W hs k {}).exclusive) = ex
+    intro h
+    cases ex <;> simp at h
+
+theorem strategy_firstMatch (W : DWorld) (k : List Slot) (hs : List DHandler)
+    (h : strategy W k hs = .firstMatch) :
+    hs.length = 1 ∨ (stratSlots W hs k {}).exclusive = true := by
+  unfold strategy at h
+  simp only at h
+  split at h
+  · cases h
+  · by_cases h1 : hs.length = 1
+    · exact Or.inl h1
+    · right
+      have hb : (hs.length == 1) = false := by simpa using h1
+      rw [hb] at h
+      cases hex : (stratSlots W hs k {}).exclusive
+      · rw [hex] at h; simp at h
+      · rfl
+
+
+/-! ## accepting handlers under a disjoint Literal slot -/
+
+theorem argAt_mem (args : List (Slot × DVal)) (s : Slot) (v : DVal) (h : argAt args s = some v) :
+    ∃ a ∈ args, a.2 = v := by
+  unfold argAt at h
+  cases hf : args.find? (fun p => p.1 == s) with
+  | none => rw [hf] at h; cases h
+  | some a =>
+    rw [hf] at h
+    exact ⟨a, List.mem_of_find?_eq_some hf, by simpa using h⟩
+
+/-- a handler accepting the values has the value at a Literal slot among its keys -/
+theorem accepts_key (W : DWorld) (k : List Slot) (args : List (Slot × DVal)) (h : DHandler) (s : Slot)
+    (hsk : s ∈ k) (v : DVal) (hv : argAt args s = some v) (ha : accepts W k args h = true) :
+    v.eq ∈ keysOf s h ∨ ¬ ∃ ks b, dTyAt h s = .lit ks b := by
+  unfold accepts at ha
+  have := List.all_eq_true.mp ha s hsk
+  rw [hv] at this
+  have hi : isinstanceOf W (dTyAt h s) v = .yes := by simpa using this
+  unfold keysOf
+  cases ht : dTyAt h s with
+  | lit ks b =>
+    left
+    rw [ht] at hi
+    exact (mem_dedupNats _ _).mpr (isinstanceOf_lit_yes W ks b v hi)
+  | _ => right; rintro ⟨ks, b, e⟩; cases e
+
+theorem mem_pairsAt (hs : List DHandler) (s : Slot) (e : Nat × Nat) :
+    e ∈ pairsAt hs s ↔ ∃ h ∈ hs, e.1 ∈ keysOf s h ∧ e.2 = h.1 := by
+  unfold pairsAt
+  rw [List.mem_flatMap]
+  constructor
+  · rintro ⟨h, hh, he⟩
+    obtain ⟨x, hx, rfl⟩ := List.mem_map.mp he
+    exact ⟨h, hh, hx, rfl⟩
+  · rintro ⟨h, hh, h1, h2⟩
+    refine ⟨h, hh, List.mem_map.mpr ⟨e.1, h1, ?_⟩⟩
+    rw [← h2]
+
+/-- **(c)** with pairwise disjoint key sets at most one handler's keys contain a given key -/
+theorem disj_unique (hs : List DHandler) (s : Slot) (hd : Disj hs s) (ids : (hs.map (·.1)).Nodup)
+    (x : Nat) (h1 : DHandler) (hh1 : h1 ∈ hs) (h2 : DHandler) (hh2 : h2 ∈ hs)
+    (hx1 : x ∈ keysOf s h1) (hx2 : x ∈ keysOf s h2) : h1 = h2 := by
+  have m1 : (x, h1.1) ∈ pairsAt hs s := (mem_pairsAt hs s _).mpr ⟨h1, hh1, hx1, rfl⟩
+  have m2 : (x, h2.1) ∈ pairsAt hs s := (mem_pairsAt hs s _).mpr ⟨h2, hh2, hx2, rfl⟩
+  have := eq_of_nodup_map_fst (pairsAt hs s) hd.2 _ m1 _ m2 rfl
+  have hid : h1.1 = h2.1 := by injection this
+  exact eq_of_nodup_map (·.1) hs ids h1 hh1 h2 hh2 hid
+
+theorem accepts_le_one (W : DWorld) (k : List Slot) (hs : List DHandler) (args : List (Slot × DVal))
+    (ids : (hs.map (·.1)).Nodup) (s : Slot) (hsk : s ∈ k) (hd : Disj hs s)
+    (v : DVal) (hv : argAt args s = some v) :
+    hs.filter (accepts W k args) = [] ∨ ∃ a, hs.filter (accepts W k args) = [a] := by
+  apply nodup_all_eq
+  · exact (nodup_of_nodup_map (·.1) hs ids).sublist List.filter_sublist
+  · intro a ha b hb
+    obtain ⟨ha1, ha2⟩ := List.mem_filter.mp ha
+    obtain ⟨hb1, hb2⟩ := List.mem_filter.mp hb
+    have ka : v.eq ∈ keysOf s a := by
+      rcases accepts_key W k args a s hsk v hv ha2 with h | h
+      · exact h
+      · exact absurd (hd.1 a ha1) h
+    have kb : v.eq ∈ keysOf s b := by
+      rcases accepts_key W k args b s hsk v hv hb2 with h | h
+      · exact h
+      · exact absurd (hd.1 b hb1) h
+    exact disj_unique hs s hd ids v.eq a ha1 b hb1 ka kb
+
+/-! ## the three bodies -/
+
+/-- the specification when at most one handler accepts -/
+def firstSpec (W : DWorld) (k : List Slot) (args : List (Slot × DVal)) (l : List DHandler) : DRes :=
+  match l.filter (accepts W k args) with
+  | [] => .fallthrough
+  | h :: _ => .handler h.1
+
+theorem go_eq (W : DWorld) (k : List Slot) (args : List (Slot × DVal)) : ∀ (l : List DHandler),
+    (∀ h ∈ l, conj W args k h = Tri.ofBool (accepts W k args h)) →
+    dispatch.go W k args l = firstSpec W k args l := by
+  intro l
+  induction l with
+  | nil => intro _; rfl
+  | cons h r ih =>
+    intro hc
+    have ih' := ih (fun h' hh' => hc h' (List.mem_cons_of_mem _ hh'))
+    have hch := hc h List.mem_cons_self
+    unfold dispatch.go firstSpec
+    rw [hch]
+    cases ha : accepts W k args h
+    · rw [List.filter_cons_of_neg (by simp [ha])]
+      simp only [Tri.ofBool]
+      exact ih'
+    · rw [List.filter_cons_of_pos ha]
+      simp [Tri.ofBool]
+
+theorem rankSpec_of_le_one (W : DWorld) (k : List Slot) (hs : List DHandler) (args : List (Slot × DVal))
+    (h1 : hs.filter (accepts W k args) = [] ∨ ∃ a, hs.filter (accepts W k args) = [a]) :
+    rankSpec W k hs args = firstSpec W k args hs := by
+  unfold rankSpec firstSpec
+  rcases h1 with e | ⟨a, e⟩ <;> rw [e]
+
+theorem counting_eq (W : DWorld) (k : List Slot) (hs : List DHandler) (args : List (Slot × DVal))
+    (hc : ∀ h ∈ hs, conj W args k h = Tri.ofBool (accepts W k args h)) :
+    (let rs := hs.map (fun h => (h.1, conj W args k h))
+     if rs.any (fun p => p.2 == .raises) then DRes.raised
+     else match rs.filter (fun p => p.2 == .yes) with
+       | [] => .fallthrough
+       | [p] => .handler p.1
+       | _ => .ambiguous) = rankSpec W k hs args := by
+  have hmap : hs.map (fun h => (h.1, conj W args k h)) =
+      hs.map (fun h => (h.1, Tri.ofBool (accepts W k args h))) :=
+    List.map_congr_left (fun h hh => by rw [hc h hh])
+  simp only [hmap]
+  have hany : (hs.map (fun h => (h.1, Tri.ofBool (accepts W k args h)))).any (fun p => p.2 == .raises) = false := by
+    rw [List.any_eq_false]
+    intro p hp
+    obtain ⟨h, _, rfl⟩ := List.mem_map.mp hp
+    cases accepts W k args h <;> simp [Tri.ofBool]
+  rw [hany]
+  have hfil : (hs.map (fun h => (h.1, Tri.ofBool (accepts W k args h)))).filter (fun p => p.2 == .yes) =
+      (hs.filter (accepts W k args)).map (fun h => (h.1, Tri.ofBool (accepts W k args h))) := by
+    rw [List.filter_map]
+    congr 1
+    apply List.filter_congr
+    intro h _
+    show (Tri.ofBool (accepts W k args h) == Tri.yes) = accepts W k args h
+    cases accepts W k args h <;> simp [Tri.ofBool]
+  simp only [Bool.false_eq_true, if_false]
+  rw [hfil]
+  unfold rankSpec
+  match hs.filter (accepts W k args) with
+  | [] => rfl
+  | [_] => rfl
+  | _ :: _ :: _ => rfl
+
+/-- in the keyed body's situation a handler accepts as soon as its Literal contains the key -/
+theorem accepts_of_key (W : DWorld) (k : List Slot) (hs : List DHandler) (args : List (Slot × DVal))
+    (ok : RankOK W k hs args) (h : DHandler) (hh : h ∈ hs) (hrel : (relevantSlots k h).length ≤ 1)
+    (s : Slot) (hsk : s ∈ k) (v : DVal) (hv : argAt args s = some v)
+    (hlit : ∃ ks b, dTyAt h s = .lit ks b) (hkey : v.eq ∈ keysOf s h) :
+    accepts W k args h = true := by
+  obtain ⟨ks, b, ht⟩ := hlit
+  have hdep : (dTyAt h s).isDep = true := by rw [ht]; simp [Ty.isDep]
+  unfold accepts
+  rw [List.all_eq_true]
+  intro s' hs'
+  obtain ⟨v', hv'⟩ := ok.present s' hs'
+  rw [hv']
+  show (isinstanceOf W (dTyAt h s') v' == Tri.yes) = true
+  cases hd : (dTyAt h s').isDep
+  · rw [ok.static h hh s' hs' hd v' hv']; simp
+  · have hss : s' = s :=
+      eq_of_filter_length_le_one (fun s => (dTyAt h s).isDep) k hrel s' hs' s hsk hd hdep
+    subst hss
+    rw [hv] at hv'
+    injection hv' with hv'
+    subst hv'
+    have := (ok.check h hh s' hs' hd v hv).1
+    rw [← this, ht, genCheck_lit]
+    unfold keysOf at hkey
+    rw [ht] at hkey
+    have : v.eq ∈ ks := (mem_dedupNats _ _).mp hkey
+    simp [Tri.ofBool, this]
+
+theorem keyed_eq (W : DWorld) (k : List Slot) (hs : List DHandler) (args : List (Slot × DVal))
+    (ok : RankOK W k hs args) (hrel : ∀ h ∈ hs, (relevantSlots k h).length ≤ 1)
+    (s : Slot) (hsk : s ∈ k) (hd : Disj hs s) (v : DVal) (hv : argAt args s = some v) :
+    (match (pairsAt hs s).find? (fun e => e.1 == v.eq) with
+     | some e => DRes.handler e.2
+     | none => .fallthrough) = rankSpec W k hs args := by
+  have hle := accepts_le_one W k hs args ok.ids s hsk hd v hv
+  cases hf : (pairsAt hs s).find? (fun e => e.1 == v.eq) with
+  | some e =>
+    have he1 : e.1 = v.eq := by simpa using List.find?_some hf
+    obtain ⟨h, hh, hk, hid⟩ := (mem_pairsAt hs s e).mp (List.mem_of_find?_eq_some hf)
+    rw [he1] at hk
+    have hacc := accepts_of_key W k hs args ok h hh (hrel h hh) s hsk v hv (hd.1 h hh) hk
+    have hmem : h ∈ hs.filter (accepts W k args) := List.mem_filter.mpr ⟨hh, hacc⟩
+    unfold rankSpec
+    rcases hle with e0 | ⟨a, e0⟩
+    · rw [e0] at hmem; cases hmem
+    · rw [e0] at hmem ⊢
+      rw [List.mem_singleton] at hmem
+      subst hmem
+      simp only [hid]
+  | none =>
+    have hnone : hs.filter (accepts W k args) = [] := by
+      rw [List.filter_eq_nil_iff]
+      intro h hh hacc
+      have hk : v.eq ∈ keysOf s h := by
+        rcases accepts_key W k args h s hsk v hv hacc with h' | h'
+        · exact h'
+        · exact absurd (hd.1 h hh) h'
+      have := List.find?_eq_none.mp hf (v.eq, h.1) ((mem_pairsAt hs s _).mpr ⟨h, hh, hk, rfl⟩)
+      simp at this
+    unfold rankSpec
+    rw [hnone]
+
+/-- the three emitted bodies all implement `rankSpec` -/
+theorem dispatch_eq_rankSpec (W : DWorld) (k : List Slot) (hs : List DHandler) (args : List (Slot × DVal))
+    (ok : RankOK W k hs args) : dispatch W k hs args = rankSpec W k hs args := by
+  have hc : ∀ h ∈ hs, conj W args k h = Tri.ofBool (accepts W k args h) :=
+    fun h hh => conj_eq W k hs args ok h hh
+  have inv := stratSlots_final W hs k
+  unfold dispatch
+  cases hst : strategy W k hs with
+  | keyed s table =>
+    obtain ⟨hrel, hks, htab⟩ := strategy_keyed W k hs s table hst
+    obtain ⟨hsk, hd, hkeyed⟩ := inv.key s hks
+    obtain ⟨v, hv⟩ := ok.present s hsk
+    simp only [hv]
+    obtain ⟨a, ha, hav⟩ := argAt_mem args s v hv
+    have hh := ok.hashable a ha
+    rw [hav] at hh
+    rw [if_neg (by omega)]
+    rw [htab, hkeyed]
+    exact keyed_eq W k hs args ok hrel s hsk hd v hv
+  | firstMatch =>
+    simp only
+    rw [go_eq W k args hs hc]
+    symm
+    apply rankSpec_of_le_one
+    rcases strategy_firstMatch W k hs hst with h1 | hex
+    · match hs, h1 with
+      | [h], _ =>
+        cases ha : accepts W k args h
+        · left; simp [List.filter, ha]
+        · right; exact ⟨h, by simp [List.filter, ha]⟩
+    · obtain ⟨s, hsk, hd⟩ := inv.excl hex
+      obtain ⟨v, hv⟩ := ok.present s hsk
+      exact accepts_le_one W k hs args ok.ids s hsk hd v hv
+  | counting =>
+    exact counting_eq W k hs args hc
+
 end Ovld
